@@ -202,7 +202,7 @@ def check_source(env, rec, text, case=None):
 
 
 def plan(tier, seed):
-    n = 200000 if tier == "quick" else 3_000_000
+    n = 200000 if tier == "quick" else 12_000_000
     nshard = 15 if tier == "quick" else 32
     shards = [{"name": f"gen_{i:02d}", "kind": "gen", "n": n // nshard, "idx": i} for i in range(nshard)]
     shards.append({"name": "pipeline", "kind": "pipeline", "n": 1500 if tier == "quick" else 30000})
